@@ -25,6 +25,9 @@ type rexpOp struct {
 	Via string `json:"via"` // Pattern | schema | patprops
 	P   string `json:"p"`
 	S   string `json:"s"`
+	// Fresh (C05): the concurrent run uses the equivalent pattern (?:P), which nothing has compiled yet, so that
+	// the cache is written while other goroutines read it (the sequential reference has cached P itself)
+	Fresh bool `json:"fresh,omitempty"`
 }
 
 type rexpCase struct {
@@ -327,7 +330,13 @@ func concRun(in *bufio.Scanner, out *bufio.Writer) {
 			go func(g int) {
 				defer wg.Done()
 				for i := range c.Threads[g] {
-					got[g] = append(got[g], runConcCall(&c.Threads[g][i], shared))
+					call := c.Threads[g][i]
+					if call.Kind == "pattern" && call.Rexp != nil && call.Rexp.Fresh {
+						r := *call.Rexp
+						r.P = "(?:" + r.P + ")"
+						call.Rexp = &r
+					}
+					got[g] = append(got[g], runConcCall(&call, shared))
 					if i%2 == 0 {
 						runtime.Gosched()
 					}
